@@ -40,6 +40,15 @@ CHECKS = {
             "The routing table is the pinned catalogue; message stanzas are plaintext-proto ones; outgoing messages only "
             "without the encryption layers.",
             "5/C06"),
+    "C07": ("exploration",
+            "Hypothesis-generated stimuli (catalogue shapes + hand-built unpresentable payloads) over the full configuration "
+            "grid, with an exactly-one-matching-acknowledgement oracle on the stanzas sent down",
+            "Every notification shape of the catalogue and unknown types, call kinds, server pings and unpresentable message "
+            "payloads are injected below the real protocol layer set in all 32 configurations; the oracle counts and matches the "
+            "ack / receipt / pong among what the layers send down (id, type, class, addressee, participant, call id).",
+            "Other stanzas sent down (key upload/fetch) are allowed; the picture notification that is neither set nor delete is "
+            "outside the guarantee.",
+            "5/C07"),
     "C09": ("exploration",
             "Hypothesis-generated stanzas per documented shape (entity catalogue) with a stanza->entity->stanza round-trip "
             "oracle, and generated constructor arguments pushed through the real codec",
